@@ -6,7 +6,7 @@ import json, os, subprocess
 VERIF = os.path.dirname(os.path.dirname(os.path.abspath(__file__)))
 
 TRUST = ("Trusted: Coq 8.16.1 kernel + vm_compute (no native_compute); Print Assumptions of every property theorem: "
-         "closed under the global context (no axioms) - except C15_gate_ieee, C15_draw_exact and C18_f64_ieee, which compare the gate, its draw and the PRNG's f64 with Flocq's IEEE-754 formalisation and so depend on the standard library's axioms ClassicalDedekindReals.sig_not_dec, ClassicalDedekindReals.sig_forall_dec, FunctionalExtensionality.functional_extensionality_dep and Classical_Prop.classic; translators tools/gen_src.py, tools/gen_mut.py, tools/gen_seedwit.py (witness data only); extraction (ExtrOcamlBasic only, "
+         "closed under the global context (no axioms) - except C15_gate_ieee, C15_draw_exact and C18_f64_ieee, which compare the gate, its draw and the PRNG's f64 with Flocq's IEEE-754 formalisation and so depend on the standard library's axioms ClassicalDedekindReals.sig_not_dec, ClassicalDedekindReals.sig_forall_dec, FunctionalExtensionality.functional_extensionality_dep and Classical_Prop.classic; translators tools/gen_src.py, tools/gen_mut.py, tools/gen_drv.py, tools/gen_utils.py, tools/gen_seedwit.py (witness data only); extraction (ExtrOcamlBasic only, "
          "no Extract Constant/Inductive of our own) + OCaml driver + Rust harness as unverified glue; reference machine "
          "and lexer are my reading of CPython pickletools (table generated from pickletools.opcodes). ")
 
@@ -21,7 +21,7 @@ CLAIMS = {
         technique="refinement proof in Coq + translator tie + step-wise correspondence"),
     'C03': dict(
         text="Theorems C03_tokens / C03_step: the kind requirement req_ok (written from the property statement) holds before every step; per-opcode content is guard of can_emit + slot compatibility; the guard function is regenerated from validation.rs on every run and proved equal to the model.",
-        note="utils.rs primitives and the kinds pushed by process_stack_ops are hand-modelled and tied by S1.",
+        note="the stack helpers of utils.rs that can_emit is written in are regenerated over the Vec view of the stack by tools/gen_utils.py and proved equal to the model's (C03_src_helpers in Properties/C03r.v; soft tie: an unreadable source degrades it to correspondence only); the kinds pushed by process_stack_ops are hand-modelled and tied by S1 / S8.",
         technique="refinement proof in Coq over the regenerated can_emit"),
     'C05': dict(
         text="Theorem C05_tokens: in every run of the envelope each token's opcode has CPython protocol <= v (rows regenerated from opcodes.rs and proved equal to the model's; tail opcodes by cleanup_facts), PROTO v leads iff v >= 2 and occurs nowhere else; oracle (extracted) re-checks this and the 7-bit claim for protocol 0 on every implementation output.",
